@@ -190,6 +190,8 @@ def focused(tier):
     for opt in ("resume", "restart", "resample"):
         out.append(single("sched-preempt %s (one sample per service)" % opt, "F-samples-preempt", K=K, T=10.0, srv=[3.0, 1.0],
                           c={"sched": {"numbers": [1, 0, 2], "ends": [1.5, 2.5, 4.0], "preempt": opt}}, features=["schedule", "preempt_sched"]))
+    # round 5: interrupted customers left over after a shift end while the resumed one is blocked and released by another node's event
+    out += [c for c in sched_preempt_chain(tier, fam="F-samples-preempt") if "[2,1]" in c["name"]]
     out.append(single("batch overshoots capacity", fam, c=1, K=K, srv=SRV2, nodekw={"cap": 1}, classkw={"batch": [[4, 1, 3]]}, features=["batching", "capacity"]))
     out.append(single("batch overshoots system capacity", fam, c=2, K=K, srv=SRV2, system_capacity=2, classkw={"batch": [[4, 1]]}, features=["batching", "syscap"]))
     # invalid answers: one per sample position of the default execution
